@@ -78,6 +78,13 @@ def gen_trace(recipe):
   if name == 'RCA_Supervised':
     opts['n_chunks'] = min(6, int(sum(c // 2 for c in np.bincount(tr['y']))))
   store = X
+  # the data type of the points: float64, float32 or integers (formed tuples then carry that dtype, so must the tuples
+  # formed from indices; a nested list cannot carry a dtype and is left out for the non-float64 stores)
+  sdt = recipe.get('store_dtype', 'float64')
+  if sdt == 'float32':
+    store = store.astype(np.float32)
+  elif sdt in ('int64', 'int16'):
+    store = np.round(store * 4.0).astype(sdt)
   events = []
   # ---- fit under the four representations
   if kind in ('pairs', 'triplets', 'quadruplets'):
@@ -92,6 +99,8 @@ def gen_trace(recipe):
   reps = {}
   counting = Counting(store)
   preps = {'formed': None, 'array': store, 'list': store.tolist(), 'callable': counting}
+  if sdt != 'float64':
+    del preps['list']
   ests = {}
   exc = ''
   for rname, prep in preps.items():
@@ -150,7 +159,10 @@ def gen_trace(recipe):
   # ---- the same objects again after set_params(preprocessor=<other store>): indices now denote OTHER points
   storeB = gen.grid(store * 1.5 + rng.normal(size=store.shape) * 0.25)
   cB = Counting(storeB)
+  storeB = storeB.astype(store.dtype) if sdt != 'float64' else storeB
+  cB.store = storeB
   prepsB = {'formed': None, 'array': storeB, 'list': storeB.tolist(), 'callable': cB}
+  prepsB = {k: v for k, v in prepsB.items() if k in ests}
   repsB = {}
   for rname, prep in prepsB.items():
     est = ests[rname]
@@ -165,6 +177,40 @@ def gen_trace(recipe):
     events.append({'ev': 'PreprocCall', 'method': 'fit', 'size': int(size), 'T': Trows, 'digests': repsB, 'exc': '',
                    'calls': [], 'formed_calls': 0, 'dtype': 'refit_after_set_params'})
   for rname in ests:                      # back to the original stores for the error cases below
+    ests[rname].set_params(preprocessor=preps[rname])
+    try:
+      gen.fit_quiet(ests[rname], store[idx] if rname == 'formed' else idx, *rest)
+    except Exception:
+      pass
+  # ---- the user's preprocessor OBJECT is updated in place between two fits (a corrected point): the indices denote the
+  # points the object holds NOW
+  storeC = store.copy()
+  listC = store.tolist()
+  cC = Counting(storeC)
+  prepsC = {'formed': None, 'array': storeC, 'list': listC, 'callable': cC}
+  prepsC = {k: v for k, v in prepsC.items() if k in ests}
+  repsC = {}
+  try:
+    for rname, prep in prepsC.items():
+      ests[rname].set_params(preprocessor=prep)
+      gen.fit_quiet(ests[rname], storeC[idx] if rname == 'formed' else idx, *rest)
+    krow = int(np.atleast_1d(idx).ravel()[0])
+    newrow = (store[krow] + (store[(krow + 1) % n] - store[krow]) // 2) if store.dtype.kind in 'iu' else gen.grid(store[krow] * 0.5 + store[(krow + 1) % n] * 0.5 + 0.25).astype(store.dtype)
+    storeC[krow] = newrow
+    if 'list' in prepsC:
+      listC[krow] = [float(v) for v in newrow]
+    for rname in prepsC:
+      try:
+        gen.fit_quiet(ests[rname], storeC[idx] if rname == 'formed' else idx, *rest)
+        repsC[rname] = state_digest(ests[rname])
+      except Exception as e:
+        repsC[rname] = 'EXC:' + type(e).__name__
+    if not all(v == 'EXC:RuntimeError' for v in repsC.values()):
+      events.append({'ev': 'PreprocCall', 'method': 'fit', 'size': int(size), 'T': Trows, 'digests': repsC, 'exc': '',
+                     'calls': [], 'formed_calls': 0, 'dtype': 'refit_after_in_place_update_of_the_preprocessor'})
+  except RuntimeError:
+    pass
+  for rname in ests:
     ests[rname].set_params(preprocessor=preps[rname])
     try:
       gen.fit_quiet(ests[rname], store[idx] if rname == 'formed' else idx, *rest)
@@ -230,7 +276,7 @@ def run(ctx):
       rows = int(rng.integers(3, 9))
       pats[str(size)].append(rng.integers(1, 9, size=(rows, size)).tolist())
   rs = []
-  n_tr = 2 if ctx.quick else 8
+  n_tr = 3 if ctx.quick else 8
   per = 14 if ctx.quick else 60
   for name in gen.ALL:
     for k in range(n_tr):
@@ -238,7 +284,8 @@ def run(ctx):
       for size, lst in pats.items():
         pick = rng.choice(len(lst), size=min(per, len(lst)), replace=False)
         sub[size] = [lst[int(i)] for i in pick]
-      rs.append(dict(est=name, d=int(rng.integers(2, 5)), seed=int(rng.integers(1 << 30)), patterns=sub))
+      rs.append(dict(est=name, d=int(rng.integers(2, 5)), seed=int(rng.integers(1 << 30)), patterns=sub,
+                     store_dtype=['float64', 'float32', 'float64', 'int64', 'int16', 'float64', 'float32', 'int64'][(k + gen.ALL.index(name)) % 8]))
   ctx.rule = ('index arrays enumerated by TLC from MC_Preproc (%d patterns: <= 2 rows over 3 points, tuple sizes 1..4) plus '
               'random patterns with repeats up to 8 rows, sampled %d per size per trace, issued to all 17 estimators x every '
               'data-taking method x 4 representations x random integer dtypes; fit with permuted / tuple index arrays; '
